@@ -52,6 +52,9 @@ TRUSTED = [
     "(desc.spk, wallet.model); independently the real code is compared with scripts hand-assembled from "
     "bip32.derive, script.serialize, hashlib and textbook point addition",
     "musig() aggregation and miniscripts over extended keys: round-trip / inverse oracles only",
+    "normalized(): Model/C14/Normalize.lean (on C07's deriveB / neuter / serialize / fingerprint, C06's Base58Check) is "
+    "tied to btclib by the stream desc.norm; that a RE-ROOTED key derives the same scripts is checked on the real code "
+    "only (oracle normalized), the theorem normalized_same_scripts_partial covers the keys that are not re-rooted",
 ]
 ASSUMPTIONS = [
     "spaces around path steps and key atoms, leading zeros of indexes and thresholds, uppercase hex, a trailing "
@@ -66,7 +69,7 @@ ASSUMPTIONS = [
     "does not begin with a descriptor function name; tr_output_commits_to_key_and_tree / tr_key_only_output — "
     "Lawful E.bip.o G (C01's statement), field below 2^256, 32-byte tagged hashes, tree depth <= 128, tweak in range, "
     "tweaked point not at infinity; *_position_of_own — every position scanned before the asked one derives a "
-    "different script",
+    "different script; normalized_same_scripts_partial — no key of the descriptor is re-rooted (Key.rerooted = false)",
 ]
 
 IC = D.INPUT_CHARSET
@@ -362,6 +365,17 @@ def impl(line: str) -> str:  # noqa: PLR0911, PLR0912
             except Unsupported:
                 return "unsupported"
             return f"ok {T(str(D.at_index(d, int(t[3]))))} {1 if d.is_ranged else 0}"
+        if op == "desc.norm":
+            prv = None if t[2] == "_" else {unT(a): unT(b) for a, b in (e.split("=") for e in t[2].split(";"))}
+            _CUR_BODY[0] = unT(t[3])
+            d = D.parse(unT(t[3]), t[4])
+            try:
+                r_desc(d)
+            except Unsupported:
+                return "unsupported"
+            n = D.normalized(d, prv)
+            rer = any(_rerooted(k) for k in d.key_expressions)
+            return f"ok {T(str(n))} {1 if rer else 0} {1 if D.normalized(n, None) == n else 0}"
         if op == "desc.spk":
             prv = None if t[2] == "_" else {unT(a): unT(b) for a, b in (e.split("=") for e in t[2].split(";"))}
             net = t[5]
@@ -941,6 +955,53 @@ def _o_atindex(w):
     y = [s.script for s in a.script_pub_keys(0, prv)]
     a2 = _parse(str(a), w["network"], {})
     return x == y and a2 == a, f"at_index scripts equal={x == y} reparse equal={a2 == a}"
+
+
+def _rerooted(k) -> bool:
+    """the keys `_normalized_key` re-roots: extended, not `/*h`, with a hardened step in the path."""
+    return k.pub_key is None and not k.participants and k.wildcard != H and any(i >= H for i in k.der_path)
+
+
+def _o_normalized(w):
+    """normalized(d, prv): refused exactly when a key to re-root has no private key at hand; the answer is written
+    with `h` only, parses back to itself, is a fixed point of normalized(), leaves no hardened step in the path of a
+    key without the `/*h` wildcard, keeps origin path + path of every key, and describes at every index the scripts d
+    describes - with NO private key when no `/*h` wildcard is left."""
+    prv = w.get("prv") or None
+    d = _parse(w["text"], w["network"], {})
+    keys = d.key_expressions
+    need = any(_rerooted(k) and not (prv and k.xkey in prv) for k in keys)
+    try:
+        n = D.normalized(d, prv)
+    except BTClibValueError as e:
+        return need, f"refused ({e}); a key to re-root lacks its private key: {need}"
+    if need:
+        return False, "normalized answered although a hardened step had no private key"
+    text = str(n)
+    if "'" in text:
+        return False, f"apostrophe left in {text}"
+    if _parse(text, w["network"], {}) != n or D.normalized(n, None) != n:
+        return False, f"not a fixed point / does not parse back: {text}"
+    for a, b in zip(keys, n.key_expressions):
+        if _rerooted(b) or a.wildcard != b.wildcard:
+            return False, f"hardened step left in {b}"
+        full_a = list(a.origin.der_path if a.origin is not None else []) + list(a.der_path)
+        full_b = list(b.origin.der_path if b.origin is not None else []) + list(b.der_path)
+        if full_a != full_b:
+            return False, f"written derivation changed: {full_a} -> {full_b}"
+        if _rerooted(a) and a.origin is not None and len(a.origin) and \
+                b.origin.master_fingerprint != a.origin.master_fingerprint:
+            return False, "master fingerprint of a written origin replaced"
+    star_h = any(k.wildcard == H for k in n.key_expressions if not k.participants)
+    for i in w["indexes"]:
+        try:
+            x = [s_.script for s_ in d.script_pub_keys(i, prv)]
+        except BTClibValueError:
+            continue
+        y = [s_.script for s_ in n.script_pub_keys(i, prv if star_h else None)]
+        if x != y:
+            return False, f"index {i}: normalized describes {[b.hex() for b in y]}, the descriptor {[b.hex() for b in x]}"
+    return True, f"normalized {text}"
 
 
 def _o_multipath(w):
@@ -1535,7 +1596,7 @@ ORACLES = {
     "multipath": _o_multipath, "index_of": _o_index_of, "wallet": _o_wallet, "wallet.agree": _o_wallet_agree, "wallet.raise": _o_wallet_raise, "wallet.address": _o_wallet_address,
     "wallet.ops": _o_wallet_ops, "checksum.reference": _o_checksum_ref,
     "opaque.roundtrip": _o_opaque_roundtrip, "brackets": _o_brackets, "int_digits": _o_int_digits,
-    "wallet.labels": _o_wallet_labels, "core.hostile": _o_core_hostile,
+    "wallet.labels": _o_wallet_labels, "core.hostile": _o_core_hostile, "normalized": _o_normalized,
 }
 
 
@@ -1745,6 +1806,7 @@ def run(ctx):  # noqa: PLR0912, PLR0915
     texts = []
     n_flip = 0
     spk_lines = []
+    norm_lines = []
     for net, spec, canonical in specs:
         text = spec_text(spec)
         if rng.random() < 0.5:
@@ -1779,10 +1841,21 @@ def run(ctx):  # noqa: PLR0912, PLR0915
         ctx.check("atindex", {"text": text, "network": net, "prv": prv,
                               "index": rng.choice([0, 1, H - 1]) if ranged else 0},
                   key="roundtrip.xonly_wif_odd_y" if odd else None)
+        rer = sum(1 for k in spec_keys(spec) if k.kind == "x" and k.wildcard != H and any(i >= H for i in k.path))
+        ctx.count("normalized", "re-rooted-keys" if rer else "symbol-only")
+        ctx.check("normalized", {"text": text, "network": net, "prv": prv, "indexes": indexes_for(rng, ranged)},
+                  key="roundtrip.xonly_wif_odd_y" if odd else None)
+        if rer:
+            ctx.check("normalized", {"text": text, "network": net, "prv": None, "indexes": [0]})
+        if len(norm_lines) < ctx.n(200, 1500):
+            norm_lines.append(f"desc.norm {at} {prv_tok} {T(text)} {net}")
+            if rer and rng.random() < 0.5:
+                norm_lines.append(f"desc.norm {at} _ {T(text)} {net}")
         if odd:
             ctx.count("roundtrip", "wif-odd-y-in-taproot-position")
     ctx.count("sortedmulti", "flip-indexes", n_flip)
     stream(ctx, "desc.spk", spk_lines)
+    stream(ctx, "desc.norm", norm_lines)
 
     # ---- sortedmulti with many keys: flips are certain
     g = Gen(rng, "mainnet")
